@@ -85,7 +85,10 @@ class EpisodeSim:
     def go(self):
         run, name, cfg = self.run, self.name, self.cfg
         with run.guard(name, "construct env"):
-            env = E.make_env(cfg)
+            env = E.make_env(run.plan.get("env_cfg") or cfg)
+        if run.plan.get("env_cfg"):
+            run.fault("cross_size_env")
+            run.nontrivial = True
         for p in self.perturbs:
             if p["kind"] == "alternate":
                 self._alternate(env, p)
@@ -330,7 +333,8 @@ def _plan(run_seed, tier, env_names, perturb_kinds, p_perturb=0.5):
         for _ in range(rc.randint(1, 2)):
             perturbs.append({"kind": rc.choice(perturb_kinds), "at": rc.randint(0, 6),
                              "seed": rc.randrange(1 << 30)})
-    return {"cfg": cfg, "instances": [E.enc_row(r) for r in rows], "strategies": strategies,
+    env_cfg = E.cross_size_cfg(cfg, rc) if rc.random() < 0.15 else None
+    return {"cfg": cfg, "env_cfg": env_cfg, "instances": [E.enc_row(r) for r in rows], "strategies": strategies,
             "perturbs": perturbs, "source": source}
 
 
@@ -441,7 +445,7 @@ def _library_rollout(run):
     cfg = p["cfg"]
     name = cfg["env"]
     rows = [E.dec_row(r) for r in p["instances"]]
-    env = E.make_env(cfg)
+    env = E.make_env(p.get("env_cfg") or cfg)
     td = E.reset(env, cfg, rows)
     bounds = []
     for r in rows:
